@@ -48,21 +48,43 @@ static void explore(const Item& it, const std::vector<alpha::Sym>& sigma, Violat
 
 // -------------------------------------------------------------------------------- C09b: monotonicity
 // For every script/stack explored at depth<=2 under all 2^8 subsets of R: success(B) => success(B \ {f}).
+static void monotonic_scripts(ref::SigVer sv, const std::vector<bytes>& init, const std::vector<bytes>& scripts_in, const std::vector<uint32_t>& bits, Violations& V, long long& pairs, long long& scripts, long long& strict_edges);
+
 static void monotonic(ref::SigVer sv, const std::vector<bytes>& init, const std::vector<alpha::Sym>& sigma, int depth, Violations& V, long long& pairs, long long& scripts, long long& strict_edges) {
-    std::vector<uint32_t> bits = alpha::R();
-    std::vector<uint32_t> sets = alpha::subsets(bits);
     // enumerate all symbol sequences of length 1..depth (no dedup: the relation is per script)
-    std::vector<std::vector<int>> seqs;
+    std::vector<bytes> all;
     std::vector<int> cur;
     std::function<void(int)> rec = [&](int d) {
-        if (!cur.empty()) seqs.push_back(cur);
+        if (!cur.empty()) { bytes script; for (int s : cur) script.insert(script.end(), sigma[s].enc.begin(), sigma[s].enc.end()); all.push_back(script); }
         if (d == depth) return;
         for (size_t i = 0; i < sigma.size(); i++) { if (sigma[i].refuse) continue; cur.push_back(int(i)); rec(d + 1); cur.pop_back(); }
     };
     rec(0);
-    for (auto& sq : seqs) {
-        bytes script;
-        for (int s : sq) script.insert(script.end(), sigma[s].enc.begin(), sigma[s].enc.end());
+    monotonic_scripts(sv, init, all, alpha::R(), V, pairs, scripts, strict_edges);
+}
+
+// signature-encoding lattice: scripts that end in a signature opcode fed with every pair of encoding-shaped operands
+static std::vector<bytes> sig_lattice_scripts() {
+    std::vector<bytes> P;
+    auto push = [&](const bytes& d) { P.push_back(d.empty() ? bytes{0x00} : ref::push_raw(d)); };
+    push({}); push({0x01}); push({0x7f});
+    { bytes k(33, 0x11); k[0] = 0x02; push(k); } { bytes k(65, 0x22); k[0] = 0x04; push(k); } { bytes k(65, 0x22); k[0] = 0x06; push(k); }
+    push(ref::unhex("300602010102010101")); push(ref::unhex("300602010102010105"));
+    push(ref::unhex("3026020101022100ffffffffffffffffffffffffffffffffbaaedce6af48a03bbfd25e8cd036414001"));   // S = n-1: high S
+    std::vector<bytes> out;
+    for (auto& a : P) for (auto& b : P) for (uint8_t op : {uint8_t(0xac), uint8_t(0xad)}) for (int tail = 0; tail < 2; tail++) {
+        bytes s = a; s.insert(s.end(), b.begin(), b.end()); s.push_back(op); if (op == 0xad) s.push_back(0x51); if (tail) s.push_back(0x91); out.push_back(s);
+    }
+    for (uint8_t dummy : {uint8_t(0x00), uint8_t(0x51)}) for (auto& a : P) for (auto& b : P) for (int tail = 0; tail < 2; tail++) {
+        bytes s{dummy}; s.insert(s.end(), a.begin(), a.end()); s.push_back(0x51); s.insert(s.end(), b.begin(), b.end()); s.push_back(0x51); s.push_back(0xae); if (tail) s.push_back(0x91); out.push_back(s);
+    }
+    return out;
+}
+static std::vector<uint32_t> sig_lattice_bits() { return {ref::F_STRICTENC, ref::F_NULLFAIL, ref::F_DERSIG, ref::F_LOW_S, ref::F_WITNESS_PUBKEYTYPE, ref::F_NULLDUMMY, ref::F_CONST_SCRIPTCODE, ref::F_DISCOURAGE_UPGRADABLE_PUBKEYTYPE}; }
+
+static void monotonic_scripts(ref::SigVer sv, const std::vector<bytes>& init, const std::vector<bytes>& scripts_in, const std::vector<uint32_t>& bits, Violations& V, long long& pairs, long long& scripts, long long& strict_edges) {
+    std::vector<uint32_t> sets = alpha::subsets(bits);
+    for (auto& script : scripts_in) {
         std::vector<char> ok(sets.size());
         bool skip = false;
         for (size_t k = 0; k < sets.size(); k++) {
@@ -191,9 +213,17 @@ int main(int argc, char** argv) {
         std::vector<bytes> small(Vs.begin(), Vs.begin() + (tier == "quick" ? 4 : 6));
         for (auto sv : svs) for (auto& init : tuples(small, lenI)) mis.push_back(MI{sv, init});
         plan.push_back("all symbol sequences of length 1.." + std::to_string(depth) + " from every initial stack over " + std::to_string(small.size()) + " small values of length 0.." + std::to_string(lenI) + " x 3 sigversions, each run under all 256 subsets of R; every cover edge of the subset lattice checked");
-        parallel_for(mis.size(), default_workers(), tmp, "c09",
+        plan.push_back("signature-encoding lattice: 972 scripts ending in CHECKSIG / CHECKSIGVERIFY / 1-of-1 CHECKMULTISIG (optionally followed by NOT) fed with every pair of 9 encoding-shaped operands (empty, garbage, compressed / uncompressed / hybrid key shapes, DER shapes with defined and undefined hash type, high S) x 3 sigversions, each run under all 256 subsets of {STRICTENC, NULLFAIL, DERSIG, LOW_S, WITNESS_PUBKEYTYPE, NULLDUMMY, CONST_SCRIPTCODE, DISCOURAGE_UPGRADABLE_PUBKEYTYPE}");
+        std::vector<bytes> sigscripts = sig_lattice_scripts();
+        size_t nsig_items = 3 * 4;   // 3 sigversions x 4 slices of the script list
+        parallel_for(mis.size() + nsig_items, default_workers(), tmp, "c09",
             [&](size_t i, FILE* o) {
                 Violations v; long long p = 0, s = 0, se = 0;
+                if (i >= mis.size()) {
+                    size_t j = i - mis.size(); ref::SigVer sv = svs[j / 4]; size_t slice = j % 4;
+                    std::vector<bytes> part; for (size_t k = slice; k < sigscripts.size(); k += 4) part.push_back(sigscripts[k]);
+                    monotonic_scripts(sv, {}, part, sig_lattice_bits(), v, p, s, se);
+                } else
                 monotonic(mis[i].sv, mis[i].init, sigma, depth, v, p, s, se);
                 fprintf(o, "N\t%lld\t%lld\t%lld\n", p, s, se); v.dump(o);
             },
